@@ -51,35 +51,150 @@ pub struct Sc {
 
 pub struct C06;
 
+/// The output state of one group of qubits that no multi-qubit gate connects to the rest.
+struct Factor {
+    /// global qubit numbers, ascending; local bit i is qubit qs[i]
+    qs: Vec<usize>,
+    probs: Vec<f64>,
+    zero: Vec<bool>,
+    amps: Vec<(f64, f64)>,
+}
+
 struct Truth {
     n: usize,
+    /// the state is the tensor product of these (one factor for the ordinary sub-batches)
+    factors: Vec<Factor>,
+    /// full vectors; empty for wide registers (`wide`)
     probs: Vec<f64>,
     /// probability exactly zero (exact circuits) / below 1e-12 (float circuits)
     zero: Vec<bool>,
-    amps: Vec<(f64, f64)>,
+    wide: bool,
     exact: bool,
+    /// some angle is stated as a plain number of radians: the reader converts it to a multiple
+    /// of π in single precision, so the answer is only good to about 1e-6 per such gate
+    decimal: bool,
 }
 
-fn truth(c: &HCirc) -> Truth {
+fn factor_of(c: &HCirc, qs: Vec<usize>) -> Factor {
+    // the sub-circuit on qs, relabelled
+    let mut local = HCirc::new(qs.len());
+    for g in &c.gates {
+        if qs.contains(&g.qs[0]) {
+            let l: Vec<usize> = g.qs.iter().map(|q| qs.iter().position(|x| x == q).expect("gate crosses factors")).collect();
+            local.gates.push(HGate { k: g.k, qs: l });
+        }
+    }
     if c.is_exact() {
-        let st = gatesim::run_on_basis::<Zw>(c, 0).expect("exact");
-        Truth {
-            n: c.n,
+        let st = gatesim::run_on_basis::<Zw>(&local, 0).expect("exact");
+        Factor {
+            qs,
             probs: gatesim::probs(&st),
             zero: st.iter().map(|a| a.is_zero_exact()).collect(),
             amps: st.iter().map(|a| a.to_c64()).collect(),
-            exact: true,
         }
     } else {
-        let st = gatesim::run_on_basis::<C64>(c, 0).expect("float");
+        let st = gatesim::run_on_basis::<C64>(&local, 0).expect("float");
         let p = gatesim::probs(&st);
-        Truth {
-            n: c.n,
-            zero: p.iter().map(|&x| x < 1e-12).collect(),
-            probs: p,
-            amps: st.iter().map(|a| a.to_c64()).collect(),
-            exact: false,
+        Factor { qs, zero: p.iter().map(|&x| x < 1e-12).collect(), probs: p, amps: st.iter().map(|a| a.to_c64()).collect() }
+    }
+}
+
+fn truth(c: &HCirc) -> Truth {
+    let exact = c.is_exact();
+    let decimal = c.has(|k| matches!(k, GK::RzMix(..) | GK::RxMix(..)));
+    if c.n <= 12 {
+        let f = factor_of(c, (0..c.n).collect());
+        return Truth { n: c.n, probs: f.probs.clone(), zero: f.zero.clone(), factors: vec![f], wide: false, exact, decimal };
+    }
+    // wide register: groups of qubits connected by multi-qubit gates
+    let mut comp: Vec<usize> = (0..c.n).collect();
+    fn find(c: &mut Vec<usize>, x: usize) -> usize {
+        if c[x] != x {
+            let r = find(c, c[x]);
+            c[x] = r;
         }
+        c[x]
+    }
+    for g in &c.gates {
+        for q in &g.qs[1..] {
+            let (a, b) = (find(&mut comp, g.qs[0]), find(&mut comp, *q));
+            comp[a] = b;
+        }
+    }
+    let mut factors = vec![];
+    for r in 0..c.n {
+        let qs: Vec<usize> = (0..c.n).filter(|&q| find(&mut comp, q) == r).collect();
+        if !qs.is_empty() {
+            assert!(qs.len() <= 12, "wide circuit with a {}-qubit factor", qs.len());
+            factors.push(factor_of(c, qs));
+        }
+    }
+    Truth { n: c.n, factors, probs: vec![], zero: vec![], wide: true, exact, decimal }
+}
+
+impl Truth {
+    fn local(f: &Factor, bits: &[bool]) -> usize {
+        f.qs.iter().enumerate().map(|(i, &q)| (bits[q] as usize) << i).sum()
+    }
+    /// Born probability of a full bit string
+    fn prob(&self, bits: &[bool]) -> f64 {
+        self.factors.iter().map(|f| f.probs[Self::local(f, bits)]).product()
+    }
+    fn is_zero(&self, bits: &[bool]) -> bool {
+        self.factors.iter().any(|f| f.zero[Self::local(f, bits)])
+    }
+    /// (P(prefix), P(prefix then 1)) restricted to the factor that holds the next qubit: the
+    /// other factors cancel in the quotient
+    fn next_bit(&self, prefix: &[bool]) -> (f64, f64) {
+        let k = prefix.len();
+        let f = self.factors.iter().find(|f| f.qs.contains(&k)).expect("qubit in no factor");
+        let mut pp = 0.0;
+        let mut p1 = 0.0;
+        for (i, p) in f.probs.iter().enumerate() {
+            let mut ok = true;
+            let mut next_set = false;
+            for (li, &q) in f.qs.iter().enumerate() {
+                let b = (i >> li) & 1 == 1;
+                if q < k && b != prefix[q] {
+                    ok = false;
+                    break;
+                }
+                if q == k {
+                    next_set = b;
+                }
+            }
+            if ok {
+                pp += p;
+                if next_set {
+                    p1 += p;
+                }
+            }
+        }
+        (pp, p1)
+    }
+    /// is the prefix itself possible (every factor gives it non-negligible probability)?
+    fn prefix_possible(&self, prefix: &[bool]) -> bool {
+        let k = prefix.len();
+        self.factors.iter().all(|f| {
+            let s: f64 = f
+                .probs
+                .iter()
+                .enumerate()
+                .filter(|(i, _)| f.qs.iter().enumerate().all(|(li, &q)| q >= k || ((i >> li) & 1 == 1) == prefix[q]))
+                .map(|(_, p)| *p)
+                .sum();
+            s > 1e-12
+        })
+    }
+    fn expectation(&self, ps: &[Pauli]) -> f64 {
+        self.factors
+            .iter()
+            .map(|f| {
+                let st: Vec<C64> = f.amps.iter().map(|&(a, b)| C64(a, b)).collect();
+                let lp: Vec<Pauli> = f.qs.iter().map(|&q| ps[q]).collect();
+                gatesim::pauli_expectation(&st, &lp).0
+            })
+            .product()
     }
 }
 
@@ -111,7 +226,7 @@ fn want(t: &Truth, q: &Query) -> Want {
                 None => return Want::Error,
             };
             let bits = if bits.len() == 1 { vec![bits[0]; t.n] } else if bits.len() == t.n { bits } else { return Want::Error };
-            Want::Number(t.probs[gatesim::idx_of(&bits)])
+            Want::Number(t.prob(&bits))
         }
         Query::Exp(s) => {
             let ps = match parse_paulis(s) {
@@ -119,8 +234,7 @@ fn want(t: &Truth, q: &Query) -> Want {
                 None => return Want::Error,
             };
             let ps = if ps.len() == 1 { vec![ps[0]; t.n] } else if ps.len() == t.n { ps } else { return Want::Error };
-            let st: Vec<C64> = t.amps.iter().map(|&(a, b)| C64(a, b)).collect();
-            Want::Number(gatesim::pauli_expectation(&st, &ps).0)
+            Want::Number(t.expectation(&ps))
         }
         Query::Shots(k) => Want::Samples(*k),
         Query::DefaultTask => Want::Samples(1),
@@ -235,6 +349,8 @@ impl Judge<'_> {
     fn tol(&self) -> f64 {
         if self.t.exact {
             1e-9
+        } else if self.t.decimal {
+            2e-5
         } else {
             1e-7
         }
@@ -250,7 +366,13 @@ impl Judge<'_> {
             Want::Number(x) => match text.trim().parse::<f64>() {
                 Ok(y) => {
                     self.out.ev(y.to_bits());
-                    if (x - y).abs() > self.tol() || y.is_nan() {
+                    // wide registers: the numbers are tiny, so the tolerance is relative there
+                    let tol = if self.t.wide {
+                        1e-9 * x.abs() + if matches!(q, Query::Amp(_)) { 1e-25 } else { 1e-15 }
+                    } else {
+                        self.tol()
+                    };
+                    if (x - y).abs() > tol || y.is_nan() {
                         let class = if matches!(q, Query::Amp(_)) { "wrong_probability" } else { "wrong_expectation" };
                         self.vio(class, format!("{how}: query {:?}: printed {} but the true value is {:.12}", q, y, x));
                     }
@@ -273,11 +395,10 @@ impl Judge<'_> {
                     let bits: Option<Vec<bool>> = l.chars().map(|c| match c { '0' => Some(false), '1' => Some(true), _ => None }).collect();
                     match bits {
                         Some(b) if b.len() == self.t.n => {
-                            let i = gatesim::idx_of(&b);
-                            if self.t.zero[i] {
+                            if self.t.is_zero(&b) {
                                 self.vio(
                                     "sample_zero_probability",
-                                    format!("{how}: printed sample '{}' has Born probability {} (distribution: {})", l, self.t.probs[i], show_dist(self.t)),
+                                    format!("{how}: printed sample '{}' has Born probability {} (distribution: {})", l, self.t.prob(&b), show_dist(self.t)),
                                 );
                                 return;
                             }
@@ -299,11 +420,8 @@ impl Judge<'_> {
                 self.vio("bernoulli_trace_malformed", format!("{how}: draw conditioned on a prefix of length {}", prefix.len()));
                 return;
             }
-            let pp = gatesim::prefix_prob(&self.t.probs, prefix);
-            let mut with1 = prefix.clone();
-            with1.push(true);
-            let p1 = gatesim::prefix_prob(&self.t.probs, &with1);
-            if pp <= 1e-12 {
+            let (pp, p1) = self.t.next_bit(prefix);
+            if pp <= 1e-12 || !self.t.prefix_possible(prefix) {
                 // the sampler is conditioning on an impossible prefix: S1 reports that
                 continue;
             }
@@ -312,7 +430,9 @@ impl Judge<'_> {
             if cond > 1e-9 && cond < 1.0 - 1e-9 && !prefix.is_empty() {
                 self.out.probe("bernoulli_draw_nondeterministic_with_prefix");
             }
-            if (p - cond).abs() > 1e-7 {
+            // a quotient of two probabilities that are each good to tol(): scale by the divisor
+            let tol = if self.t.decimal { 2.0 * self.tol() / pp } else { 1e-7 };
+            if (p - cond).abs() > tol {
                 let pre: String = prefix.iter().map(|&b| if b { '1' } else { '0' }).collect();
                 self.vio(
                     "bernoulli_not_conditional",
@@ -325,6 +445,9 @@ impl Judge<'_> {
 }
 
 fn show_dist(t: &Truth) -> String {
+    if t.wide {
+        return format!("product of {} factors", t.factors.len());
+    }
     let mut v: Vec<String> = vec![];
     for (i, p) in t.probs.iter().enumerate() {
         if !t.zero[i] && v.len() < 8 {
@@ -445,6 +568,23 @@ impl C06 {
                     c.gates.insert(pos, HGate { k: GK::H, qs: vec![q] });
                     c.gates.insert(pos + 1, HGate { k, qs: vec![q] });
                 }
+                if d.coin("mixed", 1, 3) {
+                    // an angle stated as a plain number of radians, alone or added to a multiple
+                    // of π (`rz(0.3)`, `rx(pi/2-1.25)`): the reader's other branch
+                    for _ in 0..1 + d.choose("nmix", 2) {
+                        let q = d.choose("mq", n);
+                        let mut a = d.range("ma", -3200, 3200);
+                        if a == 0 {
+                            a = 300;
+                        }
+                        let den = *d.pick("mden", &[1i64, 2, 4, 4, 8, 3]);
+                        let (bn, bd) = if d.coin("mpure", 1, 4) { (0, 1) } else { gen::reduce(d.range("mnum", -(2 * den - 1), 2 * den - 1), den) };
+                        let k = if d.coin("mx", 1, 3) { GK::RxMix(a, bn, bd) } else { GK::RzMix(a, bn, bd) };
+                        let pos = d.choose("mpos", c.gates.len() + 1);
+                        c.gates.insert(pos, HGate { k, qs: vec![q] });
+                        c.gates.insert(pos, HGate { k: GK::H, qs: vec![q] });
+                    }
+                }
                 ensure_no_idle(d, &mut c);
                 c
             }
@@ -461,6 +601,45 @@ impl C06 {
                 c
             }
             "empty" => HCirc::new(n),
+            "wide" => {
+                // 24..48 qubits as a product of 1..3-qubit blocks (the oracle multiplies the block
+                // answers): joint probabilities far below single precision, long -a / -e strings
+                let n = 24 + d.choose("wn", 25);
+                let order = d.permutation("wperm", n);
+                let mut c = HCirc::new(n);
+                let mut tleft = 4usize;
+                let mut blocks: Vec<Vec<HGate>> = vec![];
+                let mut i = 0;
+                while i < n {
+                    let sz = (1 + d.choose("wsz", 3)).min(n - i);
+                    let qs = &order[i..i + sz];
+                    i += sz;
+                    let tb = if tleft > 0 && d.coin("wt", 1, 4) { 1 + d.choose("wtb", tleft.min(2)) } else { 0 };
+                    let wng = d.choose("wng", 6);
+                    let sub = gen::random_circuit(d, sz, wng, GateMix { allow_ccz: false, ..base }, tb);
+                    tleft -= sub.gates.iter().filter(|g| g.k.is_non_clifford()).count().min(tleft);
+                    let mut gs: Vec<HGate> = vec![];
+                    for &q in qs {
+                        if d.coin("wh", 7, 8) {
+                            gs.push(HGate { k: GK::H, qs: vec![q] });
+                        }
+                    }
+                    gs.extend(sub.gates.iter().map(|g| HGate { k: g.k, qs: g.qs.iter().map(|&l| qs[l]).collect() }));
+                    blocks.push(gs);
+                }
+                // interleave the blocks (they commute), keeping each block's own order
+                let mut idx = vec![0usize; blocks.len()];
+                loop {
+                    let live: Vec<usize> = (0..blocks.len()).filter(|&b| idx[b] < blocks[b].len()).collect();
+                    if live.is_empty() {
+                        break;
+                    }
+                    let b = live[d.choose("wil", live.len())];
+                    c.gates.push(blocks[b][idx[b]].clone());
+                    idx[b] += 1;
+                }
+                c
+            }
             "t_heavier" => {
                 // T gates that neither merge nor cancel: each one behind its own Hadamard, with
                 // entangling gates in between (3 qubits, 5..9 T)
@@ -548,7 +727,7 @@ impl Property for C06 {
     fn assumptions(&self) -> Vec<String> {
         vec![
             "the harness's gate-matrix simulator (exact ring for Clifford+T, f64 otherwise; self-tested) is correct; bit i of a printed string is qubit i".into(),
-            "tolerances: 1e-9 (Clifford+T) / 1e-7 (other phases) on printed numbers and Bernoulli parameters".into(),
+            "tolerances: 1e-9 (Clifford+T) / 1e-7 (other rational phases) / 2e-5 (angles stated as a decimal number of radians, which the reader converts in single precision) on printed numbers and Bernoulli parameters".into(),
             "a closed stdout (fd 1 closed by the caller) is not judged: Rust's runtime treats EBADF on stdout as success".into(),
         ]
     }
@@ -568,6 +747,7 @@ impl Property for C06 {
             SubBatch { name: "child_threads", quick: 600, thorough: 12_000 },
             SubBatch { name: "faults", quick: 800, thorough: 8_000 },
             SubBatch { name: "stats", quick: 48, thorough: 600 },
+            SubBatch { name: "wide", quick: 160, thorough: 4_000 },
         ]
     }
     fn expected_probes(&self) -> Vec<&'static str> {
@@ -580,6 +760,7 @@ impl Property for C06 {
             "query.broadcast",
             "parallel_run_with_region",
             "chi_square_checked",
+            "wide_prefix_probability_below_1e-9",
         ]
     }
 
@@ -642,6 +823,13 @@ impl Property for C06 {
                 (q, Mode::ChildFaults(inf, outf))
             }
             "stats" => (Query::Shots(if tier == Tier::Thorough { 2000 } else { 400 }), Mode::InProcess),
+            "wide" => {
+                let q = match gen_query(d, n, 3) {
+                    Query::Shots(k) => Query::Shots(k.min(3)),
+                    q => q,
+                };
+                (q, Mode::InProcess)
+            }
             _ => (gen_query(d, n, 16), Mode::InProcess),
         };
         let parallel = if sub == "child_threads" { Some(d.choose("pdepth", 4)) } else { parallel };
@@ -671,9 +859,17 @@ impl Property for C06 {
             _ => out.probe("query.shots"),
         }
         // non-triviality of the output state
-        let nz = t.zero.iter().filter(|z| !**z).count();
+        let mut nz = t.zero.iter().filter(|z| !**z).count();
         let mut interesting_marginal = false;
-        if t.n >= 2 {
+        if t.wide {
+            // product state of small factors: count the qubits whose factor is not deterministic
+            let random_bits: usize = t.factors.iter().filter(|f| f.zero.iter().filter(|z| !**z).count() >= 2).map(|f| f.qs.len()).sum();
+            nz = if random_bits >= 1 { 2 } else { 1 };
+            interesting_marginal = random_bits >= 2;
+            if random_bits >= 30 {
+                out.probe("wide_prefix_probability_below_1e-9");
+            }
+        } else if t.n >= 2 {
             for i in 0..t.probs.len() {
                 if t.zero[i] {
                     continue;
